@@ -210,13 +210,14 @@ fn opaque(e: &Expr) -> Value {
     json!({"k": "opaque", "v": n})
 }
 
-fn tree(e: &Expr) -> Value {
+fn tree_x(e: &Expr, sq: bool) -> Value {
+    let tree = |x: &Expr| tree_x(x, sq);
     match e {
         Expr::Identifier(id) => json!({"k": "atom", "v": id.value}),
         Expr::Value(sqlparser::ast::Value::Number(s, false)) => json!({"k": "atom", "v": s.to_string()}),
         Expr::Value(sqlparser::ast::Value::SingleQuotedString(s)) => json!({"k": "str", "v": s}),
         Expr::Nested(x) => json!({"k": "nested", "e": tree(x)}),
-        Expr::Tuple(l) => json!({"k": "tuple", "list": l.iter().map(tree).collect::<Vec<_>>()}),
+        Expr::Tuple(l) => json!({"k": "tuple", "list": l.iter().map(|x| tree(x)).collect::<Vec<_>>()}),
         Expr::UnaryOp { op, expr } => json!({"k": "un", "op": format!("{:?}", op), "e": tree(expr)}),
         Expr::BinaryOp { left, op, right } => {
             json!({"k": "bin", "op": binop_name(op), "l": tree(left), "r": tree(right)})
@@ -237,7 +238,7 @@ fn tree(e: &Expr) -> Value {
         Expr::IsDistinctFrom(a, b) => json!({"k": "isdf", "neg": false, "l": tree(a), "r": tree(b)}),
         Expr::IsNotDistinctFrom(a, b) => json!({"k": "isdf", "neg": true, "l": tree(a), "r": tree(b)}),
         Expr::InList { expr, list, negated } => json!({"k": "inlist", "neg": negated, "e": tree(expr),
-            "list": list.iter().map(tree).collect::<Vec<_>>()}),
+            "list": list.iter().map(|x| tree(x)).collect::<Vec<_>>()}),
         Expr::InUnnest { expr, array_expr, negated } => {
             json!({"k": "inunnest", "neg": negated, "e": tree(expr), "arr": tree(array_expr)})
         }
@@ -274,8 +275,23 @@ fn tree(e: &Expr) -> Value {
                 JsonPathElem::Dot { key, quoted } => json!({"dot": key, "quoted": quoted}),
                 JsonPathElem::Bracket { key } => json!({"br": tree(key)}),
             }).collect::<Vec<_>>()}),
+        Expr::Subquery(q) if sq => json!({"k": "subquery", "q": q_tree(q)}),
+        Expr::InSubquery { expr, subquery, negated } if sq => {
+            json!({"k": "insubquery", "neg": negated, "e": tree(expr), "q": q_tree(subquery)})
+        }
+        Expr::Exists { subquery, negated } if sq => json!({"k": "exists", "neg": negated, "q": q_tree(subquery)}),
         _ => opaque(e),
     }
+}
+
+/// the operator core only (modes `expr`, `setop`): subqueries are opaque
+fn tree(e: &Expr) -> Value {
+    tree_x(e, false)
+}
+
+/// query mode: subquery expressions carry their query
+fn qx(e: &Expr) -> Value {
+    tree_x(e, true)
 }
 
 fn run_expr(d: &dyn Dialect, sql: &str) -> Value {
@@ -428,7 +444,7 @@ fn q_factor(t: &TableFactor) -> Option<Value> {
 
 fn q_constraint(c: &JoinConstraint) -> Option<Value> {
     Some(match c {
-        JoinConstraint::On(e) => json!({"k": "on", "e": tree(e)}),
+        JoinConstraint::On(e) => json!({"k": "on", "e": qx(e)}),
         JoinConstraint::Using(cols) => json!({"k": "using", "cols": cols.iter().map(q_ident).collect::<Vec<_>>()}),
         JoinConstraint::Natural => json!({"k": "natural"}),
         JoinConstraint::None => json!({"k": "none"}),
@@ -475,8 +491,8 @@ fn q_with(w: &With) -> Option<Value> {
 fn q_item(i: &SelectItem) -> Option<Value> {
     match i {
         SelectItem::Wildcard(o) if *o == WildcardAdditionalOptions::default() => Some(json!({"k": "wild"})),
-        SelectItem::UnnamedExpr(e) => Some(json!({"k": "expr", "e": tree(e)})),
-        SelectItem::ExprWithAlias { expr, alias } => Some(json!({"k": "alias", "e": tree(expr), "a": q_ident(alias)})),
+        SelectItem::UnnamedExpr(e) => Some(json!({"k": "expr", "e": qx(e)})),
+        SelectItem::ExprWithAlias { expr, alias } => Some(json!({"k": "alias", "e": qx(expr), "a": q_ident(alias)})),
         _ => None,
     }
 }
@@ -495,13 +511,13 @@ fn q_select(s: &Select) -> Option<Value> {
         return None;
     }
     let group_by = match &s.group_by {
-        GroupByExpr::Expressions(l, m) if m.is_empty() => l.iter().map(tree).collect::<Vec<_>>(),
+        GroupByExpr::Expressions(l, m) if m.is_empty() => l.iter().map(qx).collect::<Vec<_>>(),
         _ => return None,
     };
     let items = s.projection.iter().map(q_item).collect::<Option<Vec<_>>>()?;
     let from = s.from.iter().map(q_tref).collect::<Option<Vec<_>>>()?;
     Some(json!({"k": "select", "distinct": distinct, "items": items, "from": from,
-        "where": s.selection.as_ref().map(tree), "group_by": group_by, "having": s.having.as_ref().map(tree)}))
+        "where": s.selection.as_ref().map(qx), "group_by": group_by, "having": s.having.as_ref().map(qx)}))
 }
 
 fn q_setexpr(b: &SetExpr) -> Option<Value> {
@@ -516,6 +532,11 @@ fn q_setexpr(b: &SetExpr) -> Option<Value> {
                 _ => return None,
             };
             Some(json!({"k": "setop", "op": format!("{:?}", op), "q": q, "l": q_setexpr(left)?, "r": q_setexpr(right)?}))
+        }
+        SetExpr::Values(v) if !v.explicit_row => Some(json!({"k": "values",
+            "rows": v.rows.iter().map(|r| r.iter().map(qx).collect::<Vec<_>>()).collect::<Vec<_>>()})),
+        SetExpr::Table(t) if t.schema_name.is_none() && t.table_name.is_some() => {
+            Some(json!({"k": "table_body", "name": {"v": t.table_name.clone().unwrap(), "q": Value::Null}}))
         }
         _ => None,
     }
@@ -542,17 +563,17 @@ fn q_query(q: &Query) -> Option<Value> {
                 if o.nulls_first.is_some() || o.with_fill.is_some() {
                     return None;
                 }
-                v.push(json!({"e": tree(&o.expr), "asc": o.asc}));
+                v.push(json!({"e": qx(&o.expr), "asc": o.asc}));
             }
             v
         }
     };
     let offset = match &q.offset {
         None => Value::Null,
-        Some(Offset { value, rows: OffsetRows::None }) => tree(value),
+        Some(Offset { value, rows: OffsetRows::None }) => qx(value),
         Some(_) => return None,
     };
-    Some(json!({"with": with, "body": q_setexpr(&q.body)?, "order_by": order_by, "limit": q.limit.as_ref().map(tree), "offset": offset}))
+    Some(json!({"with": with, "body": q_setexpr(&q.body)?, "order_by": order_by, "limit": q.limit.as_ref().map(qx), "offset": offset}))
 }
 
 fn q_tree(q: &Query) -> Value {
@@ -625,6 +646,10 @@ fn probe_query(d: &dyn Dialect, sql: &str) -> Value {
                 "wild_opts": sel.as_ref().map(|s| matches!(s.projection.first(), Some(SelectItem::Wildcard(o)) if *o != WildcardAdditionalOptions::default())),
                 "from_kind": from0.map(|f| { let s = format!("{:?}", f); s.split(|c: char| !c.is_alphanumeric()).next().unwrap_or("").to_string() }),
                 "group_by": sel.as_ref().map(|s| format!("{}", s.group_by)),
+                "item0_kind": sel.as_ref().and_then(|s| s.projection.first().map(|i| match i {
+                    SelectItem::UnnamedExpr(e) | SelectItem::ExprWithAlias { expr: e, .. } => {
+                        let s = format!("{:?}", e); s.split(|c: char| !c.is_alphanumeric()).next().unwrap_or("").to_string() }
+                    _ => "other".to_string() })),
             })
         }
         Ok(Err(e)) => json!({"ok": false, "err": e.to_string()}),
@@ -659,6 +684,8 @@ fn qtables() -> Value {
                 "group_by_expr": probe_query(d, "SELECT x1 GROUP BY ()"),
                 "paren_tables": probe_query(d, "SELECT x1 FROM (x2)"),
                 "group_with": probe_query(d, "SELECT x1 GROUP BY x2 WITH ROLLUP"),
+                "exists_nested": probe_query(d, "SELECT EXISTS ((SELECT x1))"),
+                "values_empty": probe_query(d, "VALUES ()"),
             },
         }));
     }
